@@ -118,4 +118,13 @@ for _p, _mon, _camp in [
     if _p not in PROPS:
         PROPS[_p] = {"modules": [], "monitors": _mon, "campaign": _camp, "internal": True}
 
-SPECIAL = {}
+PROPS["C16"] = {
+    "kind": "codec",
+    "modules": ["C16"], "required_theorems": ["roundtrip", "roundtrip_hash", "decode_control", "decode_controls"],
+    "assumptions": ["zstd: unzstd(zstd x) = x is assumed (checked on every end-to-end case: the real tool's file decompresses to the raw diff)",
+                    "bidiff's scanner emits a tiling of the new binary: checked with the executable `tilingB` on every generated pair, not proved",
+                    "sizes below 2^63 (positions are file offsets; seeks fit an i64)"],
+}
+
+import special
+SPECIAL = special.SPECIAL
